@@ -11,6 +11,26 @@ CHECKS = {
                 note="Trusted: z3 (two versions agree), the symx proxies (validated per path against the pristine code), the repository's table read at import as "
                      "256 ground facts, CPython int semantics. The induction step itself is a paper argument.",
                 technique="SMT (QF_UFBV) lemmas over symbolically executed real methods + bounded symbolic execution of the real loops (z3)"),
+    "C01": dict(level="model_checking", design="§4 C01",
+                text="Bounded symbolic path exploration of the real HdlcFrame/HdlcFrameReader: frame objects of up to 16 (quick) / 28 (thorough) fully free octets and "
+                     "2045-2047-octet frames with free octets; reader on free streams, structured streams and spec-built frames with one free damage (replacement, truncation, "
+                     "insertion) in all four configurations and every single cut. Per path the solver proves is_valid <=> (length field == octet count and bit-serial RFC 1662 FCS "
+                     "matches), accessor exactness, contiguity/disjointness/order - for every value of the free octets.",
+                note="Trusted: z3, the symx proxies and table model (every explored path is replayed on the pristine code and must agree), the reference FCS/address parser in spec/ref.py. "
+                     "Lengths and cut positions are enumerated, not solved for.",
+                technique="bounded symbolic execution of the real code on z3 terms (GF(2)-affine normal form + Gauss-Jordan store for FCS equivalence)"),
+    "C02": dict(level="model_checking", design="§4 C02",
+                text="Spec-built well-formed frames (check sequences as terms over free control/payload octets, or over entirely free header fields) on clean streams with 1-3 flags of "
+                     "fill and optional flag-free noise are run through the real reader for every single cut and byte-at-a-time in all four configurations; the solver proves per path "
+                     "that exactly the sent frames come out, valid, with the exact payload and header fields. Thorough adds 2046/2047-octet frames.",
+                note="Trusted: z3, symx proxies (per-path pristine replay), spec frame builder. Header and payload are not free at the same time; free payload <= 2+1 (quick) / 4+2+1 (thorough).",
+                technique="bounded symbolic execution of the real reader on spec-built symbolic frames (z3 + linear store)"),
+    "C06": dict(level="model_checking", design="§4 C06",
+                text="The same free stream (all 256^n contents, n up to 9/11 from the initial state, and structured 7E+header-like+free+7E streams) is fed to real readers under different "
+                     "splittings (one call, every single cut, byte-at-a-time, cut pairs in thorough); the solver proves for each path that all observables of all returned frames are equal. "
+                     "All four configurations; thorough adds over-long frames crossing the 2047 guard.",
+                note="Trusted: z3, symx proxies (every path replayed on the pristine code). Stream lengths and cut positions enumerated.",
+                technique="bounded symbolic execution of the real reader twice on the same symbolic stream; equality of outputs decided by z3 per path"),
 }
 
 NOT_YET = {}
